@@ -36,7 +36,7 @@ def space():
         Axis('lead', ((3,), (), (2, 3), (1,))),
         Axis('N', ('auto', 3, 2, 'big')),
         Axis('wca', WCAS),
-        Axis('saliency', ('none', 'ones', 'graded', 'one_zero')),
+        Axis('saliency', ('none', 'ones', 'graded', 'one_zero', 'tiny')),
         Axis('mask', ('none', 'one_off', 'all_off_frame')),
         Axis('eps', ('default', 0.0, 1e-3)),
         Axis('norm', ('eigenvalue', 'trace', False)),
